@@ -27,13 +27,17 @@ var (
 	// longProg makes a counter file's metadata about 500 bytes long (the cap is 512)
 	longProg = "example.com/" + strings.Repeat("verylongpathelement/", 17) + "tool2"
 	// localProg is a program whose counter files start with "local.", like the local reports
-	localProg     = "example.com/m/local.test"
-	vocabPrograms = []string{"golang.org/x/tools/gopls", "cmd/go", "cmd/gofmt", "example.com/tool", longProg, localProg}
+	localProg = "example.com/m/local.test"
+	// twinProg has the same last path element as example.com/tool: their counter files
+	// differ only in the date (and sort among each other)
+	twinProg      = "example.org/other/tool"
+	vocabPrograms = []string{"golang.org/x/tools/gopls", "cmd/go", "cmd/gofmt", "example.com/tool", longProg, localProg, twinProg}
 	vocabVersions = map[string][]string{
 		"golang.org/x/tools/gopls": {"v0.14.0", "v0.15.1-pre.1", "v1.2.3", "v1.2.30", "devel"},
 		"example.com/tool":         {"v1.0.0", "v1.0.1", ""},
 		longProg:                   {"v1.0.0", "v0.15.1-pre.1"},
 		localProg:                  {"v1.0.0", ""},
+		twinProg:                   {"v1.0.0", "v1.0.1", ""},
 	}
 	vocabGo   = []string{"go1.21.5", "go1.22.1", "go1.22.10", "go1.23rc1", "devel"}
 	vocabOS   = []string{"linux", "darwin", "windows", "plan9"}
@@ -376,8 +380,14 @@ func genSeqScenario(r *verifrt.Rand, i int) *seqScenario {
 		b := a
 		s.Cfg.GOOS, s.Cfg.GOARCH, s.Cfg.GoVersion = []string{"linux"}, []string{"amd64"}, []string{"go1.22.1"}
 		vers := []string{"v1.2.3"}
-		approve := (j / 4) % 3 // 0: first only, 1: second only, 2: both
-		switch j % 4 {
+		approve := (j / 5) % 3 // 0: first only, 1: second only, 2: both
+		progs := []string{a.Program}
+		switch j % 5 {
+		case 4:
+			// another program with the same last path element: the counter files
+			// of the two differ in nothing but the date
+			b.Program = "example.org/forks/gopls"
+			progs = [][]string{{a.Program}, {b.Program}, {a.Program, b.Program}}[approve]
 		case 0:
 			b.GOARCH = "386"
 			s.Cfg.GOARCH = [][]string{{"amd64"}, {"386"}, {"amd64", "386"}}[approve]
@@ -391,18 +401,35 @@ func genSeqScenario(r *verifrt.Rand, i int) *seqScenario {
 			b.Version = "v0.14.0"
 			vers = [][]string{{"v1.2.3"}, {"v0.14.0"}, {"v1.2.3", "v0.14.0"}}[approve]
 		}
+		threeFiles := (j/15)%2 == 1 || j%5 == 4
 		s.Cfg.SampleRate = 0
-		s.Cfg.Programs = []*verifref.ProgramConfig{{Name: a.Program, Versions: vers, Counters: []verifref.CounterConfig{{Name: "editor/opens", Rate: 1}, {Name: "flag:{v,x}", Rate: 1}},
-			Stacks: []verifref.CounterConfig{{Name: "crash/crash", Rate: 1, Depth: 8}}}}
+		s.Cfg.Programs = nil
+		for _, pn := range progs {
+			s.Cfg.Programs = append(s.Cfg.Programs, &verifref.ProgramConfig{Name: pn, Versions: vers, Counters: []verifref.CounterConfig{{Name: "editor/opens", Rate: 1}, {Name: "flag:{v,x}", Rate: 1}},
+				Stacks: []verifref.CounterConfig{{Name: "crash/crash", Rate: 1, Depth: 8}}})
+		}
 		end := s.Starts[0].UTC().Truncate(24 * time.Hour).Add(-time.Duration(1+r.Intn(6)) * 24 * time.Hour)
 		s.Files = s.Files[:0]
 		for k, bl := range []verifref.Build{a, b} {
-			if (j/12)%2 == 1 {
+			if (j/15)%2 == 1 {
 				bl = []verifref.Build{b, a}[k] // (which file the directory lists first)
 			}
 			f := &ufile{Build: bl, Kind: "ok", End: end, Begin: end.Add(-time.Duration(2+r.Intn(5)) * 24 * time.Hour)}
 			f.Counts = map[string]uint64{"editor/opens": uint64(1 + r.Intn(9) + 100*k), "flag:v": uint64(2 + k), "crash/crash" + frames: uint64(1 + k), "secret/" + s.Canary: 1}
 			f.setName(k)
+			s.Files = append(s.Files, f)
+		}
+		if threeFiles {
+			// a third file, of the first file's build again, begun later than the
+			// second: the directory lists the builds as A, B, A
+			f0 := s.Files[0]
+			f := &ufile{Build: f0.Build, Kind: "ok", End: end, Begin: end.Add(-24 * time.Hour)}
+			s.Files[0].Begin = end.Add(-5 * 24 * time.Hour)
+			s.Files[1].Begin = end.Add(-3 * 24 * time.Hour)
+			s.Files[0].setName(0)
+			s.Files[1].setName(1)
+			f.Counts = map[string]uint64{"editor/opens": 1000, "flag:x": 5, "crash/crash" + frames: 7}
+			f.setName(2)
 			s.Files = append(s.Files, f)
 		}
 		s.Starts = s.Starts[:1]
